@@ -687,6 +687,7 @@ def _render(P, devs):
     case = o('case')
     indent_unit = {'none': 0, 'deep': 6}.get(o('indent'), 2)
     lines = []
+    trails = {}
     prev = None
     for s in P.stmts:
         parts = list(s.parts)
@@ -696,13 +697,16 @@ def _render(P, devs):
             parts[-1] = parts[-1].upper()
         ind = ' ' * (indent_unit * s.depth)
         if s.join and prev is not None:
+            # appended to the last physical line of the previous *statement* (comment lines may lie in between);
+            # trailing comments stay behind the last statement of the line
             sep = ';' if s.join == 'tight' else '; '
-            lines[-1] = lines[-1] + sep + ''.join(parts)
-            s.l0 = s.l1 = len(lines)
+            at = prev.l1 - 1
+            lines[at] = lines[at] + sep + ''.join(parts)
+            s.l0 = s.l1 = prev.l1
             s.solo = False
             prev.solo = False
             if s.trail:
-                lines[-1] += ' ' + s.trail
+                trails[at] = s.trail
             prev = s
             continue
         if s.kind == 'blank':
@@ -723,12 +727,13 @@ def _render(P, devs):
                     lines.append(ind + '  ! continued below')
                 cur = ind + ('    & ' if style == 'amp' else '    ')
             cur += part
-        if s.trail:
-            cur += ' ' + s.trail
         lines.append(cur)
         s.l1 = len(lines)
+        if s.trail:
+            trails[s.l1 - 1] = s.trail
         if s.kind not in ('comment',):
             prev = s
+    lines = [l + ' ' + trails[i] if i in trails else l for i, l in enumerate(lines)]
     if o('trail_ws'):
         lines = [(l + '   ') if l and not l.rstrip().endswith('&') else (l + ' ' if l else l) for l in lines]
     text = '\n'.join(lines) + '\n'
